@@ -395,7 +395,8 @@ def failKey (kind : String) (why : String) : String :=
     else if kind == "cons" then (if why == "accepted" then "constraint-accepted" else "valid-config")
     else if kind == "oor" || kind == "doc" || (kind == "typeonly" && why == "accepted") then "constraint-accepted"
     else if kind == "ph-unset" || kind == "ph-noprop" || kind == "ph-nofile" then "placeholder-missing-accepted"
-    else if kind == "null" || kind == "base" then "default-lost"
+    else if kind == "null" || kind == "base" || kind == "docdefault" then "default-lost"
+    else if kind == "dockey" then "documented-option"
     else if kind.startsWith "ph-" then "placeholder-cast"
     else if kind.startsWith "plugin-" then "plugin-position"
     else if kind == "cli" then "cli-reader"
